@@ -11,6 +11,25 @@ pub struct TextCase {
     pub kind: &'static str,
 }
 
+/// A TXT record "x. 1 IN TXT <n bytes>" whose wire form is exactly `total` bytes long (14..=269), to land an
+/// insertion on an exact packet size.
+pub fn txt_of_wire_len(total: usize) -> Option<TextCase> {
+    if !(14..=14 + 255).contains(&total) {
+        return None;
+    }
+    let n = total - 14;
+    let name = Name::from_labels(&[b"x"]);
+    let mut rd = vec![n as u8];
+    rd.extend(std::iter::repeat(b'a').take(n));
+    let rec = Record { name, rtype: T_TXT, class: 1, ttl: 1, rdata: RData::Opaque(rd) };
+    let text = format!("x. 1 IN TXT \"{}\"", "a".repeat(n));
+    let wire = rec.wire_literal();
+    if wire.len() != total {
+        return None;
+    }
+    Some(TextCase { text, wire, rec, kind: "TXT-exact-size" })
+}
+
 fn ws(rng: &mut Rng) -> String {
     // at least one horizontal whitespace
     let n = match rng.below(6) {
@@ -217,7 +236,7 @@ pub fn valid_text(rng: &mut Rng, force_type: Option<usize>) -> TextCase {
     let rdata = match tcode {
         T_A => {
             let a = [rng.u8(), *rng.pick(&[0u8, 255, 1, 10]), rng.u8(), rng.u8()];
-            text.push_str(&format!("{}.{}.{}.{}", num_text(rng, a[0] as u64), a[1], a[2], a[3]));
+            text.push_str(&format!("{}.{}.{}.{}", num_text(rng, a[0] as u64), num_text(rng, a[1] as u64), num_text(rng, a[2] as u64), num_text(rng, a[3] as u64)));
             RData::A(a)
         }
         T_AAAA => {
